@@ -269,6 +269,44 @@ def rule_index_width(ctx: Ctx, prog: Program) -> None:
                           "by the alternative of a decision on domain 256 + k is announced to the watchers of domain k)")
 
 
+# ------------------------------------------------------------------------------------------ R-VALUE-WIDTH
+VALUE_CARRIERS = ("dom_offsets_arr", "props_dom_offsets", "shr_domains_stack")
+
+
+def rule_value_width(ctx: Ctx, prog: Program) -> None:
+    """Domain values live in the domain stack; the offset of a view is added to them on the way to a constraint (the per-constraint copy
+    `props_dom_offsets`) and on the way out (`dom_offsets_arr`: solution, objective tightening).  The two offset arrays hold the same
+    numbers and the sums are domain values: the three arrays must have one integer type.  If the per-constraint copy is narrower, an offset
+    beyond its range is stored modulo 2**bits by the slice assignment (no error), the constraints then see another translation than the one
+    the solution is reported with -- the solutions of a model written with views differ from those of the same model written with explicit
+    variables, and nothing is raised."""
+    import ast
+
+    ctx.rule("R-VALUE-WIDTH")
+    found: Dict[str, Tuple[str, str, int]] = {}
+    for f in prog.all_functions():
+        if not (f.module.startswith(f"{prog.package}.problems") or f.module.startswith(f"{prog.package}.solvers")):
+            continue
+        for n in ast.walk(f.node):
+            if isinstance(n, ast.Assign) and len(n.targets) == 1 and isinstance(n.targets[0], ast.Attribute) and n.targets[0].attr in VALUE_CARRIERS \
+                    and isinstance(n.value, ast.Call):
+                for kw in n.value.keywords:
+                    if kw.arg == "dtype":
+                        found[n.targets[0].attr] = (ast.unparse(kw.value).split(".")[-1], f.path, n.lineno)
+    ctx.floor("R-VALUE-WIDTH:value-carrying-arrays", len(found), 3)
+    kinds = {v[0] for v in found.values()}
+    if len(kinds) <= 1:
+        ctx.ok("R-VALUE-WIDTH", "the arrays that carry domain values and view offsets have one integer type", sample={k: v[0] for k, v in found.items()})
+        return
+    ref = found.get("shr_domains_stack", next(iter(found.values())))[0]
+    for name, (dt, path, line) in sorted(found.items()):
+        if dt != ref:
+            ctx.violation("R-VALUE-WIDTH", path, name, f"width:{name}", f"{path}:{line}",
+                          f"{name} is allocated as {dt} while the domain stack is {ref}: an offset (or value) that the stack and the other offset table "
+                          f"represent is stored modulo 2**bits in {name}, without an error; the constraints are then filtered under another translation "
+                          "than the one solutions are reported with")
+
+
 # ------------------------------------------------------------------------------------------ R-ERROR-PROPAGATES
 def rule_error_propagates(ctx: Ctx, prog: Program) -> None:
     """The capacity error raised by solve_one ('The choice points stack is full') is the report the caller is entitled to.  Between solve_one
